@@ -5,7 +5,8 @@
 (* property allows +/-1 slack to flip a zeroing or the total weight of an   *)
 (* amino acid is 0) are emitted as S->I cases; the clauses of the property  *)
 (* are invariants on the definitions.  Cut-offs are integers on the 10000   *)
-(* scale (the replayer passes cut/10000); outside 0..10000 => error.        *)
+(* scale plus an infinitesimal eps in -1..1 (the replayer passes           *)
+(* cut/10000 + eps*1e-9); the real number outside [0,1] => error.           *)
 EXTENDS CodonTables, Sequences, Json, CSV, IOUtils
 CONSTANTS Ids18, Tier
 Cuts18 == IF Tier = "quick" THEN {-1, 0, 1, 1000, 10000, 10001}
@@ -27,26 +28,29 @@ W4 == Count(Q4)
 W5 == Count(Q5)
 W6 == Count(Q6)
 Ws == <<W1, W2, W3, W4, W5, W6>>
-VARIABLES id, ia, cut, va, vb, sum, comp
-vars == <<id, ia, cut, va, vb, sum, comp>>
+(* cut-offs a hair outside / inside the closed interval, and a hair off an interior value *)
+Eps18 == {<<0, -1>>, <<0, 1>>, <<10000, -1>>, <<10000, 1>>, <<1000, -1>>, <<1000, 1>>, <<-1, 1>>, <<10001, -1>>}
+CutPairs == {<<c, 0>> : c \in Cuts18} \cup Eps18
+VARIABLES id, ia, cut, eps, va, vb, sum, comp
+vars == <<id, ia, cut, eps, va, vb, sum, comp>>
 (* a dummy root fans out over the first operand (so that TLC's workers share the work); each leaf state *)
 (* holds the operands and the specification's results as tabulated state values                       *)
-Init == id = 0 /\ ia = 0 /\ cut = 0 /\ va = Zeros /\ vb = Zeros /\ sum = Zeros /\ comp = Zeros
-IsErrC(c) == c < 0 \/ c > 10000
-Next == \/ id = 0 /\ ia = 0 /\ ia' \in 1..Len(Ws) /\ UNCHANGED <<id, cut, va, vb, sum, comp>>
+Init == id = 0 /\ ia = 0 /\ cut = 0 /\ eps = 0 /\ va = Zeros /\ vb = Zeros /\ sum = Zeros /\ comp = Zeros
+IsErrC(c, e) == c < 0 \/ c > 10000 \/ (c = 0 /\ e < 0) \/ (c = 10000 /\ e > 0)
+Next == \/ id = 0 /\ ia = 0 /\ ia' \in 1..Len(Ws) /\ UNCHANGED <<id, cut, eps, va, vb, sum, comp>>
         \/ /\ id = 0 /\ ia # 0
-           /\ \E i \in Ids18, jb \in 1..Len(Ws), c \in Cuts18 :
-                 /\ id' = i /\ cut' = c /\ va' = Ws[ia] /\ vb' = Ws[jb]
+           /\ \E i \in Ids18, jb \in 1..Len(Ws), ce \in CutPairs : LET c == ce[1] IN
+                 /\ id' = i /\ cut' = c /\ eps' = ce[2] /\ va' = Ws[ia] /\ vb' = Ws[jb]
                  /\ sum' = AddW(Ws[ia], Ws[jb])
-                 /\ comp' = IF IsErrC(c) THEN Zeros ELSE CompW(i, Ws[ia], Ws[jb], c)
+                 /\ comp' = IF IsErrC(c, ce[2]) THEN Zeros ELSE CompW(i, Ws[ia], Ws[jb], c)
            /\ UNCHANGED ia
 Spec == Init /\ [][Next]_vars
 
-IsErr == IsErrC(cut)
+IsErr == IsErrC(cut, eps)
 Defined(c) == Total(id, va, Code[id][c]) > 0 /\ Total(id, vb, Code[id][c]) > 0
 (* emission and the clauses of the property as theorems on the definitions *)
 Check == id # 0 =>
-    /\ CSVWrite("%1$s", <<ToJson([id |-> id, wa |-> Sparse(va), wb |-> Sparse(vb), cut |-> cut, err |-> IsErr,
+    /\ CSVWrite("%1$s", <<ToJson([id |-> id, wa |-> Sparse(va), wb |-> Sparse(vb), cut |-> cut, eps |-> eps, err |-> IsErr,
                                    add |-> Sparse(sum), comp |-> Sparse(comp)])>>, IOEnv.OUTFILE)
     /\ \A c \in Codons : sum[c] = va[c] + vb[c]                                 \* AddIsSum
     /\ ~IsErr =>
